@@ -125,13 +125,14 @@ def collect(project, err=None, scenarios=None):
     return obs
 
 
-def run_text(text, want_project=False, hooks=None):
+def run_text(text, want_project=False, hooks=None, no_stderr=False):
     """Parse + schedule `text` with the real code. Never raises for errors of the code under test."""
     mh, n0 = _messages_snapshot()
     out, errs = io.StringIO(), io.StringIO()
     project = None
     err = None
-    with contextlib.redirect_stdout(out), contextlib.redirect_stderr(errs):
+    # no_stderr: the process has no standard error at all (sys.stderr is None, as when descriptor 2 is closed at start-up)
+    with contextlib.redirect_stdout(out), contextlib.redirect_stderr(None if no_stderr else errs):
         project, err = parse_only(text)
         if project is not None:
             try:
